@@ -167,17 +167,16 @@ static TPM_RC IncrementLockout(UINT32 sessionIndex)
 	    // lockout is no longer enabled
 	    gp.lockOutAuthEnabled = FALSE;
 
-	    // For TPM_RH_LOCKOUT, if lockoutRecovery is 0, no need to update NV since
-	    // the lockout authorization will be reset at startup.
-	    if(gp.lockoutRecovery != 0)
-		{
-		    if(NV_IS_AVAILABLE)
-			// Update NV.
-			NV_SYNC_PERSISTENT(lockOutAuthEnabled);
-		    else
-			// No NV access for now. Put the TPM in pending mode.
-			s_DAPendingOnNV = TRUE;
-		}
+	    // libtpms: Also update NV if lockoutRecovery is 0. The lockout
+	    // authorization will be reset at startup (DAStartup()) but a
+	    // suspended and resumed TPM does not run TPM2_Startup() and would
+	    // otherwise get lockOutAuthEnabled = TRUE back from the permanent state.
+	    if(NV_IS_AVAILABLE)
+		// Update NV.
+		NV_SYNC_PERSISTENT(lockOutAuthEnabled);
+	    else
+		// No NV access for now. Put the TPM in pending mode.
+		s_DAPendingOnNV = TRUE;
 	}
     else
 	{
